@@ -80,6 +80,7 @@ func VH_c19_mrt_roundtrip() {
 	var body Body
 	var st MRTSubTyper
 	typ := TABLE_DUMPv2
+	var wantPrefix []byte
 	switch vChoice("kind", 4) {
 	case 0: // peer index table, one IPv4 peer, AS2 or AS4
 		as := vU32("as")
@@ -94,13 +95,34 @@ func VH_c19_mrt_roundtrip() {
 		st = PEER_INDEX_TABLE
 	case 2: // IPv4 unicast RIB with one entry, with and without ADD-PATH
 		addpath := vBool("addpath")
-		nlri, _ := bgp.NewIPAddrPrefix(netip.PrefixFrom(netip.AddrFrom4([4]byte{10, vU8("n"), 0, 0}), 16))
-		e := NewRibEntry(vU16("peer"), vU32("time"), vU32("pathid"), []bgp.PathAttributeInterface{bgp.NewPathAttributeOrigin(vU8("org") % 3), bgp.NewPathAttributeMultiExitDisc(vU32("med"))}, addpath)
-		body = NewRib(vU32("seq"), bgp.RF_IPv4_UC, nlri, []*RibEntry{e})
+		// every RIB subtype: the four AFI/SAFI-specific ones and RIB_GENERIC (here a VPNv4 route),
+		// the subtype chosen for the family as the daemon's table dump does
+		var nlri bgp.NLRI
+		fam := bgp.RF_IPv4_UC
 		st = RIB_IPV4_UNICAST
-		if addpath {
-			st = RIB_IPV4_UNICAST_ADDPATH
+		switch vChoice("rib_family", 5) {
+		case 0:
+			nlri, _ = bgp.NewIPAddrPrefix(netip.PrefixFrom(netip.AddrFrom4([4]byte{10, vU8("n"), 0, 0}), 16))
+		case 1:
+			fam, st = bgp.RF_IPv4_MC, RIB_IPV4_MULTICAST
+			nlri, _ = bgp.NewIPAddrPrefix(netip.PrefixFrom(netip.AddrFrom4([4]byte{10, vU8("n"), 0, 0}), 16))
+		case 2:
+			fam, st = bgp.RF_IPv6_UC, RIB_IPV6_UNICAST
+			nlri, _ = bgp.NewIPAddrPrefix(netip.PrefixFrom(netip.AddrFrom16([16]byte{0x20, 0x01, vU8("n")}), 32))
+		case 3:
+			fam, st = bgp.RF_IPv6_MC, RIB_IPV6_MULTICAST
+			nlri, _ = bgp.NewIPAddrPrefix(netip.PrefixFrom(netip.AddrFrom16([16]byte{0x20, 0x01, vU8("n")}), 32))
+		default:
+			fam, st = bgp.RF_IPv4_VPN, RIB_GENERIC
+			nlri, _ = bgp.NewLabeledVPNIPAddrPrefix(netip.PrefixFrom(netip.AddrFrom4([4]byte{10, vU8("n"), 0, 0}), 16), *bgp.NewMPLSLabelStack(100), bgp.NewRouteDistinguisherTwoOctetAS(65000, 1))
+			vReach("generic")
 		}
+		e := NewRibEntry(vU16("peer"), vU32("time"), vU32("pathid"), []bgp.PathAttributeInterface{bgp.NewPathAttributeOrigin(vU8("org") % 3), bgp.NewPathAttributeMultiExitDisc(vU32("med"))}, addpath)
+		body = NewRib(vU32("seq"), fam, nlri, []*RibEntry{e})
+		if addpath {
+			st = st.(MRTSubTypeTableDumpv2) + 6
+		}
+		wantPrefix, _ = nlri.Serialize()
 	default: // BGP4MP state change
 		typ = BGP4MP
 		as4 := vBool("as4")
@@ -124,6 +146,13 @@ func VH_c19_mrt_roundtrip() {
 	vAssert(err == nil && int(h2.Len) == len(b)-MRT_COMMON_HEADER_LEN && h2.Type == typ && h2.SubType == st.ToUint16() && h2.Timestamp == hdr.Timestamp, "record header changed by the round trip")
 	m2, err := ParseBody(b[MRT_COMMON_HEADER_LEN:], h2)
 	vAssert(err == nil, "own record encoding rejected")
+	if err != nil {
+		return
+	}
+	if rib, ok := m2.Body.(*Rib); ok {
+		gotPrefix, _ := rib.Prefix.Serialize()
+		vAssert(c19eq(gotPrefix, wantPrefix) && len(rib.Entries) == 1, "a RIB record does not parse back to the same prefix and entries")
+	}
 	b2, err := m2.Serialize()
 	vAssert(err == nil && c19eq(b, b2), "re-serialising the parsed record is not a fixpoint")
 	adv, tok, err := SplitMrt(b, true)
